@@ -4,8 +4,6 @@
 from __future__ import annotations
 
 import builtins
-import functools
-import operator
 import warnings
 from collections import namedtuple
 from collections.abc import Callable, Iterable
@@ -26,6 +24,7 @@ from ._utils import (
     binary_op,
     from_corearray,
     split_nulls_and_values,
+    statically_empty,
     unary_op,
     validate_core,
     variadic_op,
@@ -852,7 +851,7 @@ class _NumericOperationsImpl(OperationsBlock):
     def all(self, x, *, axis=None, keepdims: bool = False):
         if isinstance(x.dtype, dtypes.NullableCore):
             x = ndx.where(x.null, True, x.values)
-        if functools.reduce(operator.mul, x._static_shape, 1) == 0:
+        if axis is None and not keepdims and statically_empty(x):
             return ndx.asarray(True, dtype=ndx.bool)
         return ndx.min(x.astype(ndx.int8), axis=axis, keepdims=keepdims).astype(
             ndx.bool
@@ -862,7 +861,7 @@ class _NumericOperationsImpl(OperationsBlock):
     def any(self, x, *, axis=None, keepdims: bool = False):
         if isinstance(x.dtype, dtypes.NullableCore):
             x = ndx.where(x.null, False, x.values)
-        if functools.reduce(operator.mul, x._static_shape, 1) == 0:
+        if axis is None and not keepdims and statically_empty(x):
             return ndx.asarray(False, dtype=ndx.bool)
         return ndx.max(x.astype(ndx.int8), axis=axis, keepdims=keepdims).astype(
             ndx.bool
